@@ -191,6 +191,9 @@ func primStep(d *serializer.Deserializer, op string, p []int64) {
 var chainOps = []string{"ReadBool", "ReadByte", "ReadNum", "ReadUint256", "ReadTime", "ReadPayloadLength", "ReadVariableByteSlice", "ReadString", "ReadSequenceOfObjects", "ReadBytes"}
 
 func primFunc(cs *Case, in []byte) func() (int, error) {
+	if isLenarg(cs) {
+		return lenargFunc(cs, in)
+	}
 	if cs.Tgt == "chain" {
 		// P = [op0, a, b, c, op1, a, b, c, ...]
 		return func() (int, error) {
